@@ -9,6 +9,7 @@ static struct cmd cmds[] = {
   {"c14", cmd_c14},
   {"c03", cmd_c03},
   {"c03e", cmd_c03e},
+  {"c04", cmd_c04},
   {NULL, NULL}
 };
 int main(int argc, char **argv) {
